@@ -121,13 +121,29 @@ func (t *Tape) Exploring() bool { return !t.useRep }
 // Log numbers the simulated events of a run and folds them into a digest.
 // With Trace set it also keeps a readable line per event (replay files).
 type Log struct {
-	Seq    int
-	Digest uint64
-	Trace  bool
-	Lines  []string
+	Seq      int
+	Digest   uint64 // all events
+	OpDigest uint64 // events of the caller and the oracle only (no device-level events)
+	Trace    bool
+	Lines    []string
+	dev      bool
 }
 
-func (l *Log) fold(x uint64) { l.Digest = (l.Digest ^ x) * 0x100000001b3 }
+func (l *Log) fold(x uint64) {
+	l.Digest = (l.Digest ^ x) * 0x100000001b3
+	if !l.dev {
+		l.OpDigest = (l.OpDigest ^ x) * 0x100000001b3
+	}
+}
+
+// EvDev records a device-level event (a Read served by a simulated source): part of the
+// full digest, not of the operation digest, because how often and with what buffer sizes
+// the library calls its reader is not an observable the properties constrain.
+func (l *Log) EvDev(kind string, a ...int64) {
+	l.dev = true
+	l.Ev(kind, a...)
+	l.dev = false
+}
 
 // Ev records an event.
 func (l *Log) Ev(kind string, a ...int64) {
